@@ -687,6 +687,36 @@ pub fn run(prop: &str, tier: Tier) -> ! {
         }
     }
     if prop == "C16" {
+        // large payloads in a buffer of exactly their length, one less and one more (every
+        // instantiated capacity that has instantiated neighbours)
+        let mut cases: Vec<(Vec<u8>, usize)> = vec![];
+        for l in [255usize, 256, 257, 1023, 1024, 1025, 8191, 8192, 8193, 65535, 65536, 65537] {
+            for f in 0..NFILL {
+                for tail in [&[][..], &[0x00, 0x00], &[0x1b], &[0x00, 0x1b, 0x1b, 0x1b, 0x1b]] {
+                    let mut p = filler(f, l - tail.len());
+                    p.extend_from_slice(tail);
+                    for n in [l - 1, l, l + 1] {
+                        if has_cap(n) {
+                            cases.push((p.clone(), n));
+                        }
+                    }
+                }
+            }
+        }
+        let parts = par_chunks(cases.len() as u64, 1, |a, _| {
+            let (p, n) = &cases[a as usize];
+            let mut out = vec![];
+            let mut c = Counts::default();
+            c16_case(p, *n, &[0x55], &canon(p), &mut out, &mut c);
+            (out, c)
+        });
+        for (o, c) in parts {
+            for v in o {
+                all.tally.add(v);
+            }
+            all.counts.merge(&c);
+        }
+        all.counts.addn("large exact-capacity cases", cases.len() as u64);
         let mut out = vec![];
         c16_default_buffer(&mut out, &mut all.counts);
         for v in out {
